@@ -98,9 +98,14 @@ def evaluate(case):
         comps = sorted({type(getattr(x, "schema", None)).__name__ for x in errs})
         null_dup = any(getattr(x.reason_code, "name", "") in ("SERIES_CONTAINS_DUPLICATES", "DUPLICATES") for x in errs) and \
             (_has_null_cells(table) or _result_has_nulls(res))
-        ev.add(f"returned-object-violates-schema{drop}:" + "+".join(o2.get("reasons", [])),
-               {"ops": ops, "components": comps, "null_dup": null_dup, "checks": _check_names(errs),
-                "msg": str(o2.get("exc"))[:400]})
+        # one discrepancy per (reason, component class): each is explained (or not) on its own
+        groups = {}
+        for x in errs:
+            groups.setdefault((getattr(x.reason_code, "name", str(x.reason_code)), type(getattr(x, "schema", None)).__name__), []).append(x)
+        for (reason, comp), xs in sorted(groups.items()):
+            ev.add(f"returned-object-violates-schema{drop}:{reason}",
+                   {"ops": ops, "components": [comp], "null_dup": null_dup and reason in ("SERIES_CONTAINS_DUPLICATES", "DUPLICATES"),
+                    "checks": _check_names(xs), "all_reasons": o2.get("reasons", []), "msg": str(xs[0])[:300]})
     elif o2["kind"] == "internal":
         ev.labels.append("strip-validate-internal")
     # (1b) reference model on the object read back
@@ -111,17 +116,27 @@ def evaluate(case):
             comps = sorted({"Index" if "<index>" in repr(e.where) else "Column" for e in ref.errors})
             null_dup = any(e.reason in ("SERIES_CONTAINS_DUPLICATES", "DUPLICATES") for e in ref.errors) and \
                 (_has_null_cells(table) or _has_null_cells(t2))
-            ev.add(f"returned-object-violates-reference{drop}:" + "+".join(ref.reasons),
-                   {"ops": ops, "components": comps, "null_dup": null_dup,
-                    "errors": [(e.key(), e.rows) for e in ref.errors][:5]})
+            groups = {}
+            for e in ref.errors:
+                groups.setdefault((e.reason, "Index" if "<index>" in repr(e.where) else "Column"), []).append(e)
+            for (reason, comp), es in sorted(groups.items()):
+                ev.add(f"returned-object-violates-reference{drop}:{reason}",
+                       {"ops": ops, "components": [comp], "null_dup": null_dup and reason in ("SERIES_CONTAINS_DUPLICATES", "DUPLICATES"),
+                        "errors": [(e.key(), e.rows) for e in es][:5], "all_reasons": ref.reasons})
     except (sp.NotRepresentable, refmodel.Undefined) as e:
         ev.labels.append("readback-outside-reference-vocabulary")
     # (2) idempotence
     snap = fp.snapshot(res)
     o3 = fp.outcome(lambda: schema.validate(res, lazy=lazy))
     if o3["kind"] in ("SchemaError", "SchemaErrors"):
-        ev.add("revalidation-of-result-rejected:" + "+".join(o3.get("reasons", [])),
-               {"ops": ops, "checks": _check_names(getattr(o3["exc"], "schema_errors", [o3["exc"]])), "msg": str(o3.get("exc"))[:300]})
+        errs3 = getattr(o3["exc"], "schema_errors", [o3["exc"]])
+        groups = {}
+        for x in errs3:
+            groups.setdefault((getattr(x.reason_code, "name", str(x.reason_code)), type(getattr(x, "schema", None)).__name__), []).append(x)
+        for (reason, comp), xs in sorted(groups.items()):
+            ev.add(f"revalidation-of-result-rejected:{reason}",
+                   {"ops": ops, "components": [comp], "checks": _check_names(xs), "all_reasons": o3.get("reasons", []),
+                    "msg": str(xs[0])[:300]})
     elif o3["kind"] == "ok":
         try:
             if fp.snapshot(o3["value"]) != snap:
@@ -136,27 +151,27 @@ def evaluate(case):
 @known.finding("C03/drop_invalid_rows-keeps-rows-with-invalid-index-label")
 def _kf_drop_index(family, case, disc):
     d = disc.detail if isinstance(disc.detail, dict) else {}
-    return (":drop:" in disc.kind and disc.kind.startswith("returned-object-violates") and case["spec"].get("index") is not None
-            and d.get("components") in (["Index"], ["MultiIndex"]))
+    if case["spec"].get("index") is None or d.get("components") not in (["Index"], ["MultiIndex"]):
+        return False
+    if ":drop:" in disc.kind and disc.kind.startswith("returned-object-violates"):
+        return True
+    # the surviving rows are reported again when the result is validated a second time and that call raises because of
+    # an error which dropping cannot resolve
+    return bool(case["spec"].get("drop_invalid_rows")) and disc.kind.startswith("revalidation-of-result-rejected:") \
+        and disc.kind.split(":")[-1] in ("DATAFRAME_CHECK", "SERIES_CONTAINS_NULLS", "SERIES_CONTAINS_DUPLICATES")
 
 
 @known.finding("C03/drop_invalid_rows-keeps-null-duplicates")
 def _kf_drop_nulldup(family, case, disc):
     d = disc.detail if isinstance(disc.detail, dict) else {}
-    if not (":drop:" in disc.kind and disc.kind.startswith("returned-object-violates") and d.get("null_dup")):
-        return False
-    rest = set(disc.kind.split(":")[-1].split("+")) - {"SERIES_CONTAINS_DUPLICATES", "DUPLICATES"}
-    if not rest:
-        return True
-    # surviving rows whose index label violates the Index component may ride along (the other recorded drop finding)
-    ixs = case["spec"].get("index")
-    ix_kinds = [c["kind"] for l in ((ixs["multi"] if "multi" in ixs else [ixs]) if ixs else []) for c in l.get("checks", [])]
-    if rest != {"DATAFRAME_CHECK"} or not ix_kinds or "Index" not in d.get("components", []) + ["Index" if "MultiIndex" in d.get("components", []) else ""]:
-        return False
-    if "errors" in d:
-        return all("<index>" in str(e[0]) for e in d["errors"] if e[0][0] == "DATAFRAME_CHECK")
-    dup_names = {"field_uniqueness", "multiple_fields_uniqueness"}
-    return all(c in dup_names or any(c.startswith(k + "(") for k in ix_kinds) for c in d.get("checks", []))
+    return (":drop:" in disc.kind and disc.kind.startswith("returned-object-violates") and bool(d.get("null_dup"))
+            and disc.kind.split(":")[-1] in ("SERIES_CONTAINS_DUPLICATES", "DUPLICATES"))
+
+
+def _index_aggregate_checks(spec):
+    ixs = spec.get("index")
+    levels = (ixs["multi"] if "multi" in ixs else [ixs]) if ixs else []
+    return [c["kind"] for l in levels for c in l.get("checks", []) if c["kind"] == "unique_values_eq"]
 
 
 @known.finding("C03/drop_invalid_rows-aggregate-check-broken-by-dropping")
@@ -164,7 +179,7 @@ def _kf_drop_aggregate(family, case, disc):
     """unique_values_eq holds (or is skipped) on the input but fails on the result because rows holding some of the
     required values were dropped for another reason; the check is not re-run on the result."""
     d = disc.detail if isinstance(disc.detail, dict) else {}
-    if not (case["spec"].get("drop_invalid_rows") and _aggregate_checks(case["spec"])):
+    if not (case["spec"].get("drop_invalid_rows") and (_aggregate_checks(case["spec"]) or _index_aggregate_checks(case["spec"]))):
         return False
     if family == "polars" and disc.kind in ("revalidation-changes-result", "revalidation-crashes:ShapeError"):
         # polars: on the second pass the aggregate check fails with a 1-row check output, which drop_invalid_rows
@@ -172,21 +187,32 @@ def _kf_drop_aggregate(family, case, disc):
         first = d.get("first") or {}
         n_first = len(next(iter((first.get("cells") or {}).values()), []))
         return n_first < sp.table_nrows(case["table"]) or disc.kind.startswith("revalidation-crashes")
-    reasons = set(disc.kind.split(":")[-1].split("+"))
-    if reasons != {"DATAFRAME_CHECK"}:
+    if disc.kind.split(":")[-1] != "DATAFRAME_CHECK":
         return False
-    # errors of the Index component may ride along (C03/drop_invalid_rows-keeps-rows-with-invalid-index-label: the
-    # wrong row is dropped, which is often what removes a required value)
-    ixs = case["spec"].get("index")
-    ix_kinds = [c["kind"] for l in ((ixs["multi"] if "multi" in ixs else [ixs]) if ixs else []) for c in l.get("checks", [])]
     if disc.kind.startswith("returned-object-violates-reference:drop:"):
-        errs = [e for e in d.get("errors", []) if "<index>" not in str(e[0]) or not ix_kinds]
+        errs = d.get("errors", [])
         return bool(errs) and all("unique_values_eq" in str(e[0]) for e in errs)
     if disc.kind.startswith("returned-object-violates-schema:drop:") or disc.kind.startswith("revalidation-of-result-rejected:"):
         checks = d.get("checks", [])
-        rest = [c for c in checks if not c.startswith("unique_values_eq")]
-        return len(rest) < len(checks) and all(any(c.startswith(k + "(") for k in ix_kinds) for c in rest)
+        return bool(checks) and all(c.startswith("unique_values_eq") for c in checks)
     return False
+
+
+@known.finding("C03/joint-uniqueness-evaluated-before-column-parsers")
+def _kf_joint_unique_before_parsers(family, case, disc):
+    """DataFrameSchema(unique=[...]) is checked on the data as it is before the Column components run their parsers:
+    duplicates that only exist after parsing (abs of 4 and -4) are neither reported nor dropped"""
+    spec = case["spec"]
+    uq = spec.get("unique") or []
+    keys = set(uq if all(isinstance(x, str) for x in uq) else [x for g in uq for x in g])
+    parsed = {c["name"] for c in spec.get("columns", []) if c.get("parsers")}
+    if family != "pandas" or not (keys & parsed):
+        return False
+    base = disc.kind.replace(":drop:", ":")
+    if base in ("returned-object-violates-schema:DUPLICATES", "returned-object-violates-reference:DUPLICATES",
+                "revalidation-of-result-rejected:DUPLICATES"):
+        return True
+    return disc.kind == "revalidation-changes-result" and bool(spec.get("drop_invalid_rows"))
 
 
 @known.finding("C03/add_missing_columns-insert-position-ignores-regex-columns")
@@ -195,8 +221,9 @@ def _kf_add_missing_regex_order(family, case, disc):
     if not (family in ("pandas", "polars") and spec.get("add_missing_columns") and spec.get("ordered")
             and any(c.get("regex") for c in spec.get("columns", []))):
         return False
-    return disc.kind in ("returned-object-violates-reference:COLUMN_NOT_ORDERED", "returned-object-violates-schema:COLUMN_NOT_ORDERED",
-                         "revalidation-of-result-rejected:COLUMN_NOT_ORDERED")
+    return disc.kind.replace(":drop:", ":") in ("returned-object-violates-reference:COLUMN_NOT_ORDERED",
+                                                "returned-object-violates-schema:COLUMN_NOT_ORDERED",
+                                                "revalidation-of-result-rejected:COLUMN_NOT_ORDERED")
 
 
 FAMILIES = [
